@@ -2,6 +2,7 @@ import Tmv.Lemmas.LightRpc
 import Tmv.Lemmas.ProtoEnc
 import Tmv.Lemmas.MerkleComplete
 import Tmv.Lemmas.MerkleInclusion
+import Tmv.Lemmas.LightRpcTraced
 /-! Auxiliary definitions and lemmas for Props/C20 (kept out of the property file): the honest
 application state used to state the ABCIQuery theorems, loop lemmas, and the concrete one-block
 chain `Wit` used for witnesses and non-vacuity examples. -/
@@ -382,6 +383,39 @@ theorem foldl_max_ge_mem (l : List Int) (a x : Int) (hx : x ∈ l) :
       · have := foldl_max_ge ys a; omega
     · exact ih _ hx
 
+
+/-- `verify_inclusion_any` with the collision located: among the leaf preimage and the inner nodes of
+the claimed path on the proof side, the nodes of the genuine tree on the other -/
+theorem verify_inclusion_any_traced (L : Nat) (hL : 0 < L) (hlen : ∀ x, (H x).length = L)
+    (items : List Bytes) (leaf : Bytes) (p : Proof)
+    (hv : verify H (root H items) leaf p = .ok ()) :
+    leaf ∈ items ∨
+      CollisionIn H ((0 :: leaf) :: pathPre H p.total.toNat p.index.toNat p.total.toNat (leafHash H leaf) p.aunts)
+        (rootPre H items.length items) := by
+  unfold verify at hv
+  split at hv; · cases hv
+  split at hv; · cases hv
+  split at hv; · cases hv
+  rename_i hleaf
+  have hrootlen : (root H items).length = L := rootF_len H L hlen _ _
+  have hrne : root H items ≠ [] := by
+    intro h; rw [h] at hrootlen; simp at hrootlen; omega
+  have hcomp : computeRoot H p = some (root H items) := by
+    split at hv
+    · simp [hrne] at hv
+    · rename_i h heq; split at hv
+      · rename_i e; rw [heq, e]
+      · cases hv
+  unfold computeRoot at hcomp
+  split at hcomp; · cases hcomp
+  have hlh : p.leafHash = leafHash H leaf := by simpa using hleaf
+  rw [hlh] at hcomp
+  by_cases hne : items = []
+  · right
+    subst hne
+    have := fromAunts_emptyHash_traced2 H leaf _ _ _ _ hcomp
+    simpa [rootPre] using this
+  · exact fromAunts_inclusion_traced H L hlen items.length items (Nat.le_refl _) hne _ _ _ leaf _ hcomp
 
 /-- `Txs.Proof(i)` validates against `Txs.Hash()` (the completeness half of C10, re-derived here from
 the aunts lemma so that this file does not depend on Props/C10) -/
